@@ -76,6 +76,8 @@ def place_str(p):
             s = "%s[_%d]" % (s, e["local"])
         elif k == "cidx":
             s = "%s[%d]" % (s, e["off"])
+        elif k == "subslice":
+            s = "%s[%d..%s%d]" % (s, e["from"], "-" if e["from_end"] else "", e["to"])
         else:
             s = "%s<%s>" % (s, k)
     return s
@@ -621,6 +623,11 @@ class Resolver:
                 t = ("index", t, self.local(e["local"], depth + 1, seen))
             elif k == "cidx":
                 t = ("index", t, ("const", "usize", e["off"]))
+            elif k == "subslice" and (not e["from_end"] or e.get("array_len", -1) >= 0):
+                # `[a, rest @ ..]` patterns: the same tree as base[from..to]
+                hi = e["to"] if not e["from_end"] else e["array_len"] - e["to"]
+                rng = ("agg", ("adt", "std::ops::Range", "Range", ("start", "end")), (("const", "usize", e["from"]), ("const", "usize", hi)))
+                t = ("call", "core::array::<impl std::ops::Index<I> for [T; N]>::index", (t, rng), -1, ())
             else:
                 t = ("proj", t, k)
         return t
@@ -1130,6 +1137,23 @@ def order_test(fn, R, bi):
         return d[2], d[1], d[3], tr, fa
     if d[0] == "call" and d[1].rsplit("::", 1)[-1] in ("lt", "le", "gt", "ge") and len(d[2]) >= 2:
         return d[2][0], d[1].rsplit("::", 1)[-1].capitalize(), d[2][1], tr, fa
+    return None
+
+
+def order_edges(test, is_x, is_y):
+    """for an order_test result that decides exactly `x < y` against `x >= y` (in any of the four spellings):
+    (successor when x < y, successor when x >= y); None for any other test"""
+    a, op, b, tr, fa = test
+    if is_x(a) and is_y(b):
+        if op == "Lt":
+            return tr, fa
+        if op == "Ge":
+            return fa, tr
+    if is_y(a) and is_x(b):
+        if op == "Gt":
+            return tr, fa
+        if op == "Le":
+            return fa, tr
     return None
 
 
